@@ -134,7 +134,11 @@ func Verif_C09_V9_ChunkToChunkReader() {
 func Verif_C09_V10_ChunkReadAt() {
 	ref, src, backend, integ, b := verifC09ChunkBuffer()
 	off := vnd.Choose(ref.n+3) - 1
-	p := make([]byte, vnd.Choose(ref.n+2))
+	plens := ref.n + 2
+	if plens > 3 && !vnd.Thorough() {
+		plens = 3
+	}
+	p := make([]byte, vnd.Choose(plens))
 	n, err := b.ReadAt(p, int64(off))
 	vnd.Assert(src.closes == 1, "source not closed exactly once")
 	matches := verifBytesEqual(src.all, ref.data)
@@ -151,7 +155,7 @@ func Verif_C09_V10_ChunkReadAt() {
 			if n == len(want) {
 				vnd.Assert(verifBytesEqual(p[:n], want), "ReadAt returned bytes that are not the object's bytes at that offset")
 			}
-			vnd.Assert(vnd.Implies(n < len(p), err == io.EOF), "short ReadAt without end-of-file indication")
+			vnd.Assert((err == io.EOF) == (n < len(p)), "ReadAt end-of-file indication inconsistent with the byte count")
 		} else {
 			vnd.Assert(n == 0, "ReadAt beyond the object returned data")
 		}
@@ -251,24 +255,42 @@ func Verif_C09_V11_ByteSlice() {
 	backend := vnd.Choose(2) == 1
 	integ := &verifIntegrity{}
 	b := NewCASBufferFromByteSlice(ref.digest, data, verifSource(backend, integ))
-	vnd.Assert(integ.valid+integ.invalid == 1, "byte slice CAS buffer: integrity verdict not delivered exactly once at construction")
+	matches := verifBytesEqual(data, ref.data)
 	_, rejected := b.(errorBuffer)
-	vnd.Assert(rejected == (integ.invalid == 1), "byte slice CAS buffer: verdict and kind of buffer disagree")
+	vnd.Assert(rejected == vnd.Not(matches), "byte slice CAS buffer: accepted mismatching content or rejected the object's own content")
+	if backend {
+		vnd.Assert(integ.valid+integ.invalid == 1, "byte slice CAS buffer: integrity verdict not delivered exactly once at construction")
+		vnd.Assert(vnd.Implies(integ.valid > 0, matches), "integrity callback received a positive verdict for mismatching content")
+		vnd.Assert(vnd.Implies(integ.invalid > 0, vnd.Not(matches)), "integrity callback received a negative verdict for matching content")
+	}
 	size, serr := b.GetSizeBytes()
 	how := vnd.Choose(verifUseCount)
-	off := vnd.Choose(ref.n + 1)
+	off := 0
+	if how == verifUseChunkReader || how == verifUseReadAt {
+		off = vnd.Choose(ref.n + 1)
+	}
 	got, err, usedOff := verifConsume(b, how, off, ref.n)
 	if rejected {
 		vnd.Cover("slice-rejected")
 		vnd.Assert(serr != nil, "error buffer reports a size")
 		vnd.Assert(err != nil, "rejected byte slice was read successfully")
 		vnd.Assert(len(got) == 0, "rejected byte slice handed out data")
+		c := status.Code(err)
+		if backend {
+			vnd.Assert(c == codes.Internal, "backend-provided data failed validation with a code other than INTERNAL")
+		} else {
+			vnd.Assert(c == codes.InvalidArgument, "client-supplied data failed validation with a code other than INVALID_ARGUMENT")
+		}
 	} else {
 		vnd.Cover("slice-accepted")
 		vnd.Assert(serr == nil && size == int64(ref.n), "accepted byte slice reports a wrong size")
 		vnd.Assert(err == nil, "accepted byte slice failed to read")
+		vnd.Assert(matches, "consumer observed completion although the content differs from the digest's content")
+		vnd.Assert(verifBytesEqual(got, ref.data[usedOff:]), "consumer completed with bytes that are not the object's suffix at the requested offset")
 	}
-	verifCheckOutcome(ref, data, false, usedOff, got, err, integ, backend)
+	if backend {
+		vnd.Assert(integ.valid+integ.invalid == 1, "byte slice CAS buffer: consuming the buffer produced another integrity verdict")
+	}
 	vnd.ObserveBytes("got", got)
 }
 
@@ -280,7 +302,20 @@ func Verif_C09_V12_CloneCopy() {
 	ref := verifNewRef(vnd.Choose(maxN + 1))
 	backend := vnd.Choose(2) == 1
 	integ := &verifIntegrity{}
-	script := verifScript(k, maxLen)
+	max := 10
+	if ref.n > 0 && vnd.Choose(2) == 1 {
+		max = ref.n - 1
+	}
+	// The chunking of the source is the business of V1/V6 (CloneCopy goes
+	// through ToByteSlice): quick tier draws a single delivery of any length.
+	var script []verifDelivery
+	if max >= ref.n {
+		if vnd.Thorough() {
+			script = verifScript(k, maxLen)
+		} else {
+			script = verifScript(1, maxN+1)
+		}
+	}
 	var b Buffer
 	var rsrc *verifReader
 	var csrc *verifChunkSource
@@ -290,10 +325,6 @@ func Verif_C09_V12_CloneCopy() {
 	} else {
 		csrc = &verifChunkSource{script: script}
 		b = NewCASBufferFromChunkReader(ref.digest, csrc, verifSource(backend, integ))
-	}
-	max := 10
-	if ref.n > 0 && vnd.Choose(2) == 1 {
-		max = ref.n - 1
 	}
 	b1, b2 := b.CloneCopy(max)
 	// the source is consumed and released by the time the copies exist
@@ -308,7 +339,10 @@ func Verif_C09_V12_CloneCopy() {
 	}
 	how1 := vnd.Choose(verifUseCount)
 	how2 := (how1 + 2) % verifUseCount
-	off1 := vnd.Choose(ref.n + 1)
+	off1 := 0
+	if how1 == verifUseChunkReader || how1 == verifUseReadAt {
+		off1 = vnd.Choose(ref.n + 1)
+	}
 	got1, err1, used1 := verifConsume(b1, how1, off1, ref.n)
 	got2, err2, used2 := verifConsume(b2, how2, ref.n/2, ref.n)
 	if max < ref.n {
@@ -322,6 +356,7 @@ func Verif_C09_V12_CloneCopy() {
 	vnd.Assert((err1 == nil) == (err2 == nil), "one copy was readable, the other was not")
 	if err1 != nil {
 		vnd.Assert(err1 == err2, "the two copies fail with different errors")
+		vnd.Assert(len(got1) == 0 && len(got2) == 0, "a failed copy handed out data")
 	}
 	verifCheckOutcome(ref, all, errored, used1, got1, err1, integ, backend)
 	verifCheckOutcome(ref, all, errored, used2, got2, err2, integ, backend)
